@@ -86,8 +86,52 @@ func dischargeFunc(sv *Solver, fr *FuncResult, par int) map[string]*oblStatus {
 	var mu sync.Mutex
 	sem := make(chan struct{}, par)
 	var wg sync.WaitGroup
+	// reachability (vacuity) guards: one satisfiable instance per name suffices; try instances until one is sat
+	reachGroups := map[string][]*Obligation{}
+	var reachNames []string
+	for _, o := range fr.Obls {
+		if o.Reach {
+			if _, ok := reachGroups[o.Name()]; !ok {
+				reachNames = append(reachNames, o.Name())
+			}
+			reachGroups[o.Name()] = append(reachGroups[o.Name()], o)
+		}
+	}
+	for _, name := range reachNames {
+		group := reachGroups[name]
+		wg.Add(1)
+		sem <- struct{}{}
+		go func() {
+			defer wg.Done()
+			defer func() { <-sem }()
+			st := &oblStatus{Name: name, Reach: true, Solver: map[string]int{}, Goal: group[0].Goal, Pos: group[0].Pos}
+			for _, o := range group {
+				r := sv.solve(o.Name(), pre+o.Script, nil, true)
+				st.Instances++
+				st.Seconds += r.Seconds
+				st.Solver[r.Solver]++
+				if r.Answer == "sat" {
+					st.Sat++
+					break
+				} else if r.Answer == "unsat" {
+					st.Unsat++
+					if st.FailInst == nil {
+						st.FailInst, st.FailRes = o, r
+					}
+				} else {
+					st.Unknown++
+				}
+			}
+			mu.Lock()
+			stats[name] = st
+			mu.Unlock()
+		}()
+	}
 	for _, o := range fr.Obls {
 		o := o
+		if o.Reach {
+			continue
+		}
 		wg.Add(1)
 		sem <- struct{}{}
 		go func() {
@@ -186,7 +230,7 @@ func cmdVC(args []string) {
 				nd++
 			}
 		}
-		fmt.Printf("== %s: paths=%d queries=%d obligations=%d discharged=%d gen=%.2fs\n", key, fr.Paths, len(fr.Obls), len(names), nd, gen.Seconds())
+		fmt.Printf("== %s: paths=%d queries=%d obligations=%d discharged=%d gen=%.2fs wall=%.1fs\n", key, fr.Paths, len(fr.Obls), len(names), nd, gen.Seconds(), time.Since(t0).Seconds())
 		for _, u := range fr.Undecided {
 			fmt.Printf("   UNDECIDED: %s\n", u)
 			bad++
